@@ -513,6 +513,7 @@ def subst(toks, log, rules):
 
 SUBST_COUNTS = {}
 SUBST_NEED = {}
+FLOAT_LITS = set()
 
 def r5_local_const(toks, log):
     """fn-local `const N: T = e;` -> `let N: T = e;` (applied to fn bodies only)"""
@@ -577,11 +578,19 @@ def const_items(toks):
             out.append((name, ty, toks[j + 1:e - 1], toks[kw].line))
     return out
 
-def const_lines(consts, world, log):
+def const_lines(consts, world, log, stem="c"):
+    """R4: `const X: Float = e;` -> spec handle X_s() (in a module of its own, so that generated axiom
+    modules can refer to it) + opaque exec const whose value is that handle"""
     lines = []
+    ln0 = consts[0][3] if consts else 0
+    lines.append(("pub mod cdefs_%s { use vstd::prelude::*;" % stem, ln0))
     for (name, ty, expr, ln) in consts:
-        etext = layout(expr)[0][0].strip() if expr else ""
         lines.append(("pub uninterp spec fn %s_s() -> %s;" % (name, "f64" if ty == "Float" else ty), ln))
+    lines.append(("}", ln0))
+    lines.append(("pub use cdefs_%s::*;" % stem, ln0))
+    for (name, ty, expr, ln) in consts:
+        etext = " ".join(t for (t, _) in layout(expr)).strip() if expr else ""
+        etext = " ".join(etext.split())
         lines.append(("#[verifier::external_body] exec const %s: %s ensures %s == %s_s() { %s }" % (name, ty, name, name, etext), ln))
         log.append(("R4", ln, "const %s -> opaque exec const with spec handle %s_s()" % (name, name)))
     return lines
@@ -676,7 +685,7 @@ def extract_take(repo, arg, cfg, world, log):
             cs = [c for c in cs if c[0] in names]
         if not cs:
             raise Undecided("no module-level consts in %s" % path)
-        return const_lines(cs, world, log)
+        return const_lines(cs, world, log, path.rsplit('/', 1)[-1].rsplit('.', 1)[0])
     (s, kw, e) = find_item(toks, 0, len(toks), sel)
     item = toks[s:e]
     kwrel = kw - s
@@ -716,6 +725,10 @@ def extract_take(repo, arg, cfg, world, log):
         if k in ("neg", "casts", "local_const"):
             c[k] = (v not in ("0", "false", "off"))
     item = apply_rewrites(item, c, log)
+    from . import gen as _gen
+    for u in item:
+        if u.kind == "num" and _gen.is_float_lit(u.text):
+            FLOAT_LITS.add(u.text)
     if opts.get("pubfields"):
         item = pub_fields(item, log)
     if opts.get("ghostfield"):
@@ -957,7 +970,7 @@ def weave(vspec_path, repo, verif_root):
     """-> (text, linemap, info).  linemap[i] (0-based generated line) = dict(kind, src, line, tags)"""
     meta, secs = parse_vspec(vspec_path)
     secs = expand_uses(secs, verif_root)
-    SUBST_COUNTS.clear(); SUBST_NEED.clear()
+    SUBST_COUNTS.clear(); SUBST_NEED.clear(); FLOAT_LITS.clear()
     cfg = meta["config"]
     world = meta["world"]
     out = []
@@ -970,6 +983,15 @@ def weave(vspec_path, repo, verif_root):
     emit("//#world " + world, kind="dir")
     if cfg:
         emit("//#config " + json.dumps(cfg, sort_keys=True), kind="dir")
+    # pass 1: extract every take (generated sections may depend on what was extracted)
+    for sec in secs:
+        if sec.kind == "take":
+            sublog = []
+            scfg = dict(cfg)
+            if getattr(sec, "cfg", None): scfg.update(sec.cfg)
+            sec.fresh = extract_take(repo, sec.arg, scfg, world, sublog)
+            sec.sublog = sublog
+    ctx = {"float_lits": set(FLOAT_LITS)}
     use_depth = 0
     for sec in secs:
         origin = getattr(sec, "origin", None) or os.path.basename(vspec_path)
@@ -990,16 +1012,13 @@ def weave(vspec_path, repo, verif_root):
         elif sec.kind == "gen":
             from . import gen
             emit("//#gen " + sec.arg, kind="dir")
-            for t in gen.generate(sec.arg, repo, meta, log):
+            for t in gen.generate(sec.arg, repo, meta, log, ctx):
                 emit(t, kind="gen", src="gen:" + sec.arg)
             emit("//#endgen", kind="dir")
         elif sec.kind == "take":
             path = sec.arg.split()[0]
-            sublog = []
-            scfg = dict(cfg)
-            if getattr(sec, "cfg", None): scfg.update(sec.cfg)
-            fresh = extract_take(repo, sec.arg, scfg, world, sublog)
-            log += [(r, path, ln, msg) for (r, ln, msg) in sublog]
+            fresh = sec.fresh
+            log += [(r, path, ln, msg) for (r, ln, msg) in sec.sublog]
             emit(("//#take " if use_depth == 0 else "//#utake ") + sec.arg, kind="dir")
             woven = transplant(sec.lines, fresh, sec.arg)
             ncode = 0
